@@ -235,6 +235,7 @@ def c09(run):
     r8_accessors.run_r8(run)
     r8_accessors.check_accessor_slots(run)
     r8_accessors.check_operator_fastpaths(run)
+    r20_shapes.check_layout_by_one_dimension(run, [f for f in prog.analysed_functions() if not f.module.short.startswith('stdlib/')])
     r8_accessors.check_list_truth(run, [f for f in prog.analysed_functions() if not f.module.short.startswith(('base/', 'stdlib/')) and f.module.short != 'timing'])
     r8_accessors.check_element_slices(run, [k for k in r8_accessors.ACCESSORS if k.startswith('twist:SMTwist.')])
     if r8_accessors.check_zip_lengths(run, [f for f in prog.analysed_functions() if not f.module.short.startswith(('base/', 'stdlib/'))
@@ -369,6 +370,7 @@ def c15(run):
     r10_args.check_none_belief(run, [f for f in prog.analysed_functions() if f.module.short not in ('base/animate', 'timing', 'stdlib/collections', 'base/graphics')])
     r10_args.check_getvector_contract(run)
     r10_args.check_getunit_contract(run)
+    r10_args.check_unit_only_converts(run, [f for f in prog.analysed_functions() if f.module.short not in ('base/animate', 'timing', 'stdlib/collections', 'base/graphics')])
     r10_args.check_scalartypes(run)
     r4_predicates.check_isvector(run)
     # the arms of a form split (one vector / a list of vectors, one value / many) forward the same options to the same kernel
@@ -528,6 +530,7 @@ def _scope_rules(run, pid, r1=True, r2=True, r9=True, generic=True):
         r20_shapes.check_shapes(run, [f for f in fs if f.key not in seen])
         r20_shapes.check_inverted_guards(run, [f for f in fs if f.key not in seen])
         r20_shapes.check_slot_completeness(run, [f for f in fs if f.key not in seen])
+        r20_shapes.check_layout_by_one_dimension(run, [f for f in fs if f.key not in seen])   # X.T if X.shape[1] == K else X
         r15_closed.check_unchecked_sites(run, keys={f.key for f in fs if f.key not in seen})
         run.extra['_generic_done'] = sorted(seen | {f.key for f in fs})
     if r9:
@@ -567,6 +570,8 @@ def c01(run):
     r16_tables.rotation_words(run)
     r16_tables.tables_frames(run)
     r15_closed.check_unchecked_sites(run)
+    # ... and what is stored is the product that was computed: a copy keeps the dtype of ONE operand (functions and their nested helpers)
+    r11_symbolic.check_copy_dtype(run, [f for f in run.prog.functions.values() if not f.module.short.startswith('stdlib/')])
     r15_closed.check_unitquaternion_ctor(run)
     r14_interp.check_slerp_forms(run)
     r14_interp.check_uq_interp_forms(run)
@@ -606,6 +611,7 @@ def c02(run):
     r16_tables.check_vector_fn(run, 'base/quaternions:qqmul', 'qqmul',
                                ['P0[0]*P1[0] - dot(P0[1:4], P1[1:4])', 'P0[0]*P1[1:4] + P1[0]*P0[1:4] + cross(P0[1:4], P1[1:4])'])
     r16_tables._qpow(run)
+    r15_closed.check_twist_sum_arm(run)      # x + y is the twist product only for commuting twists
     r16_tables.check_trlog_dependence(run)
     r21_explog.check_log_general(run)       # twist composition is log(exp(x) exp(y)): the logarithm's general branch and its guards
     r7_binary.run_r7(run, helpers=True, dunders=False)
